@@ -267,40 +267,60 @@ def HALFN(n, f):
 
 def segment_rules(chk, repo):
     f = repo.func('segmented.hex_ring')
-    fors = [n for n in ast.walk(f.node) if isinstance(n, ast.For)]
-    ok = None
-    det = 'undecided: not the two nested loops over the six sides and the ring radius'
-    if len(fors) == 2:
-        outer, inner = sorted(fors, key=lambda n: n.lineno)
-        o_it = ast.unparse(outer.iter).replace(' ', '')
-        i_it = ast.unparse(inner.iter).replace(' ', '')
-        six = o_it == 'range(6)'
-        if isinstance(outer.iter, ast.Name):
-            g = f.module.globals.get(outer.iter.id)
+    _, rpaths, _ = analyse(repo, f)
+    ok, det = None, 'undecided: not two nested loops over the six sides and the ring radius'
+    for p in returns(rpaths):
+        lps = [lp for lp in p.state.loops if lp['func'] == f.key]
+        if len(lps) != 2:
+            continue
+        counts = [nf.iter_count(lp['iter']) if isinstance(lp['iter'], (Poly, Tup)) else None for lp in lps]
+        # the inner loop is recorded first (it finishes first)
+        inner, outer = lps[0], lps[1]
+        appends = [[e for e in bs.events[inner['n_pre_events']:] if e.kind == 'write' and e.data.get('how') == 'method:append']
+                   for bs in inner['states']]
+        six = counts[1] == C(6)
+        it_outer = outer['iter'].single_atom() if isinstance(outer['iter'], Poly) else None
+        if counts[1] is None and it_outer is not None and it_outer[0] == 'sym':
+            g = f.module.globals.get(it_outer[1].split('.')[-1])
             six = isinstance(g, (ast.List, ast.Tuple)) and len(g.elts) == 6
-            o_it = f'{outer.iter.id} ({len(g.elts) if isinstance(g, (ast.List, ast.Tuple)) else "?"} directions)'
-        appends = [n for n in ast.walk(inner) if isinstance(n, ast.Call) and getattr(n.func, 'attr', '') == 'append']
-        direct = [s for s in inner.body if isinstance(s, ast.Expr) and isinstance(s.value, ast.Call)
-                  and getattr(s.value.func, 'attr', '') == 'append']
-        ok = six and i_it == 'range(radius)' and len(appends) == 1 and len(direct) == 1 and inner in outer.body
-        det = f'outer {o_it}, inner {i_it}, {len(appends)} append(s) of which {len(direct)} unconditional'
+        unconditional = len(inner['states']) == 1 and not inner['conds'][0] and len(outer['states']) == 1 and not outer['conds'][0]
+        ok = bool(six) and counts[0] == S('radius') and all(len(a) == 1 for a in appends) and unconditional
+        det = f'outer loop runs {fmt(counts[1]) if counts[1] is not None else "?"} times, inner {fmt(counts[0]) if counts[0] is not None else "?"} ' \
+              f'times, {[len(a) for a in appends]} append(s) per step' + ('' if unconditional else ', conditional')
     chk.ob('C20-g', 'structural', f.key, 'exactly one hexagon per (side, step): 6*radius per ring', ok, det, f.loc())
     f = repo.func('segmented.hex_segments')
     _, paths, _ = analyse(repo, f)
-    fors = sorted([n for n in ast.walk(f.node) if isinstance(n, ast.For)], key=lambda n: n.lineno)
     ok_r = ok_s = None
-    if len(fors) == 2 and fors[1] in ast.walk(fors[0]) and isinstance(fors[0].target, ast.Name):
-        ring, inner = fors
-        ok_r = ast.unparse(ring.iter).replace(' ', '') == 'range(1,rings+1)' and \
-            ast.unparse(inner.iter).replace(' ', '') == f'hex_ring({ring.target.id})'
-        incs = [s for s in inner.body if isinstance(s, ast.AugAssign) and isinstance(s.target, ast.Name)
-                and isinstance(s.op, ast.Add) and isinstance(s.value, ast.Constant) and s.value.value == 1]
-        all_incs = [n for n in ast.walk(f.node) if isinstance(n, ast.AugAssign) and isinstance(n.target, ast.Name)
-                    and incs and n.target.id == incs[0].target.id]
-        guards = [s for s in inner.body if isinstance(s, ast.If)]
-        g_ok = len(guards) == 1 and incs and ast.unparse(guards[0].test).replace(' ', '') == f'{incs[0].target.id}notindrop' \
-            and not guards[0].orelse
-        ok_s = len(incs) == 1 and len(all_incs) == 1 and bool(g_ok)
+    for p in returns(paths):
+        lps = [lp for lp in p.state.loops if lp['func'] == f.key]
+        if len(lps) != 2:
+            continue
+        inner, ring = lps[0], lps[1]
+        ra = ring['iter'].single_atom() if isinstance(ring['iter'], Poly) else None
+        ia = inner['iter'].single_atom() if isinstance(inner['iter'], Poly) else None
+        ring_ok = ra is not None and is_app(ra, ('range', 'arange')) and len(ra[2]) == 2 and ra[2][0] == C(1) and \
+            ra[2][1] == S('rings') + 1
+        via = ia is not None and is_app(ia, 'call:segmented.hex_ring') and \
+            any(a[0] == 'iter' for a in nf.value_atoms(dict((k.items[0].value, k.items[1]) for k in ia[2]).get('radius')))
+        ok_r = (ok_r is not False) and ring_ok and via
+        # the running segment number: incremented by one in every inner step, drawn unless it is in `drop`
+        good_s = True
+        for bs, conds in zip(inner['states'], inner['conds']):
+            incs = [e for e in bs.events[inner['n_pre_events']:] if e.kind == 'write' and e.data.get('how') == 'augassign'
+                    and e.data.get('op') == 'add' and e.data.get('value') == C(1)]
+            draws = [e for e in bs.events[inner['n_pre_events']:] if e.kind == 'call' and e.data.get('callee') == 'shape.hexagon']
+            guard = [(c, pol) for c, pol, _ in conds]
+            in_drop = [pol for c, pol in guard if isinstance(c, Poly) and c.single_atom() is not None
+                       and is_app(c.single_atom(), ('in', 'notin')) and S('drop') in c.single_atom()[2]]
+            if len(incs) != 1:
+                good_s = False
+            if len(guard) > 1 or (guard and not in_drop):
+                good_s = False
+            kept = (not guard) or (guard and ((is_app(guard[0][0].single_atom(), 'notin') and guard[0][1]) or
+                                              (is_app(guard[0][0].single_atom(), 'in') and not guard[0][1])))
+            if bool(draws) != bool(kept):
+                good_s = False
+        ok_s = (ok_s is not False) and good_s
     hx = []
     for p in paths:
         for e in p.calls('shape.hexagon'):
